@@ -277,6 +277,9 @@ def _s_recovery(ctx, S):
                         return simple_ext
                     if call_attr(c_) == "rpartition" and src(c_.func.value) == var and [src(a) for a in c_.args] == ["'.'"]:
                         return simple_ext
+                if isinstance(d, ast.Subscript) and isinstance(d.slice, ast.Constant) and d.slice.value == 0 and isinstance(d.value, ast.Call) and \
+                        call_attr(d.value) in ("split", "partition") and src(d.value.func.value) == var and [src(a) for a in d.value.args][:1] == ["'.'"]:
+                    return False                  # cuts at the FIRST dot of the whole path, not at the suffix
                 if isinstance(d, ast.Call) and call_attr(d) == "removesuffix" and src(d.func.value) == var and len(d.args) == 1:
                     try:
                         return const_eval(d.args[0]) == ext
